@@ -57,10 +57,11 @@ def expect_strings(v):
     return str(v)
 
 
-def confirm(C, ql):
-    """build a consumer for `f: <ql> ID` and run conforming payloads; returns (ok, description)"""
+def confirm(C, ql, declare_id=False):
+    """build a consumer for `f: <ql> ID` and run conforming payloads; returns (ok, description).
+    With `declare_id` the schema spells out `scalar ID` (SDL printers commonly do)."""
     expr = K.graphql_type_expr(ql, 'ID')
-    err = C.build(f'type Query {{ f: {expr} }}\n', 'query Q { f }\n', 'Q', 'q')
+    err = C.build(('scalar ID\n' if declare_id else '') + f'type Query {{ f: {expr} }}\n', 'query Q { f }\n', 'Q', 'q')
     if err:
         m = re.search(r'error(\[E\d+\])?: [^\n]*(\n[^\n]*){0,6}', err)
         return False, f'generated code for `f: {expr}` does not compile: ' + (m.group(0)[:500] if m else err[-500:]).replace('\n', ' | ')
@@ -158,6 +159,14 @@ def main():
             if not ok and not by_role:
                 out.violation('native:' + K.graphql_type_expr(ql, 'ID'), desc, dict(kind='native', qualifiers=ql))
     if not by_role:
+        for ql in ([], ['L', 'R']):
+            ok, desc = confirm(C, ql, declare_id=True)
+            replayed += 1
+            native.append(dict(type_expression=K.graphql_type_expr(ql, 'ID'), schema_declares_scalar_ID=True, ok=ok, note=desc[:160]))
+            if not ok:
+                out.violation('native:declared-scalar-ID', 'schema with an explicit `scalar ID` definition: ' + desc, dict(kind='native', qualifiers=ql, declare_id=True))
+                break
+    if not by_role:
         ok, desc = confirm_positions(C)
         replayed += 1
         native.append(dict(positions='fragment spread (flatten) and inline fragment (variant)', ok=ok, note=desc[:200]))
@@ -186,6 +195,6 @@ def replay(path):
     p = json.load(open(path))
     sc = vc.scratch(PROP + 'r')
     ql = p.get('field', {}).get('qualifiers', p.get('qualifiers', []))
-    ok, desc = confirm(consumer.Consumer(sc), ql)
+    ok, desc = confirm(consumer.Consumer(sc), ql, declare_id=bool(p.get('declare_id')))
     print(desc)
     return 0 if ok else 1
